@@ -690,6 +690,7 @@ Section Rec.
     (exists j, encode_top qp fuel h result = HOk j /\ decode_h qp_dec fuel h j = HOk (h1, r')) /\
     length h <= length h1 /\ length h2 = S (length h1) /\
     (forall l, l < length h -> l <> rec -> nth_error h2 l = nth_error h l) /\
+    (forall l, inr (length h) (length h1) l -> nth_error h2 l = nth_error h1 l) /\
     (forall l, reach h2 r' l -> length h <= l < length h1) /\
     (forall h'', agree_on (inr (length h) (length h1)) h2 h'' ->
        forall f s, encode_h qp f h'' s r' = encode_h qp f h2 s r').
@@ -720,6 +721,8 @@ Section Rec.
     split; [eauto|]. split; [exact Lh1|]. split; [unfold h2; rewrite heap_set_length; exact Lw|].
     split.
     { intros l Hl N. rewrite Same by exact N. rewrite Eold by lia. rewrite E1. apply nth_error_app1, Hl. }
+    split.
+    { intros l [Lo Hi]. rewrite Same by lia. apply Eold, Hi. }
     split.
     { intros l Rl. apply (reach_closed _ _ _ _ K1 R1 Rl). }
     intros h'' A f s. apply (encode_region qp _ _ _ K1 A). exact R1.
@@ -764,7 +767,7 @@ Section Clients.
     forall f s, encode_h qp f h'' s r' = encode_h qp f h2 s r'.
   Proof.
     intros Lr Cs PC RV St.
-    destruct (copy_on_interception qp qp_dec _ _ _ _ _ _ _ _ Lr PC RV) as (_ & _ & L1 & L2 & Old & _ & Fr).
+    destruct (copy_on_interception qp qp_dec _ _ _ _ _ _ _ _ Lr PC RV) as (_ & _ & L1 & L2 & Old & _ & _ & Fr).
     set (P := fun l => l <> rec /\ ~ inr (length h) (S (length h1)) l) in *.
     assert (K : closed_set P h2).
     { intros l nd [N O] En.
